@@ -129,5 +129,69 @@ theorem path_monoOn_of_neg {K p s q a b : ℝ} (hK : K < 0) (hp : 0 < p) (hq : 0
     MonotoneOn (path K p s q) (Icc a b) := fun x hx y _ hxy =>
   pot_mono_of_neg hK hp (nsq_pos hq) (nsq_mono (ha.trans hx.1) hxy)
 
+/-! ## hard cores
+
+Reduction: with `a = |v|²`, `b = v·s`, `c = |s|² - R²` the squared distance of the two centres at time
+`t`, minus `R²`, is `|s - v t|² - R² = a t² - 2 b t + c` (`gap_expand` below proves this expansion for
+vectors given as functions on a finite index type). -/
+
+/-- `|s - v t|² - R²` in the reduced quantities -/
+def gap (a b c t : ℝ) : ℝ := a * t * t - 2 * b * t + c
+
+theorem gap_expand {ι : Type} [Fintype ι] (v s : ι → ℝ) (R2 t : ℝ) :
+    (∑ i, (s i - v i * t) * (s i - v i * t)) - R2 =
+      gap (∑ i, v i * v i) (∑ i, v i * s i) ((∑ i, s i * s i) - R2) t := by
+  unfold gap
+  have : ∀ i, (s i - v i * t) * (s i - v i * t) = v i * v i * t * t - 2 * (v i * s i) * t + s i * s i :=
+    fun i => by ring
+  simp only [this, Finset.sum_add_distrib, Finset.sum_sub_distrib, ← Finset.sum_mul, ← Finset.mul_sum]
+  ring
+
+/-- `HardSpherePotential.displacement`: `a = velocity_squared`, `b = velocity_dot_separation`,
+`c = separation_squared - self._diameter_squared`; `none` = `inf` -/
+def hardSphere (a b c : ℝ) : Option ℝ :=
+  let root := b * b - a * c
+  if root ≥ 0 ∧ b ≥ 0 then some ((b - Real.sqrt root) / a) else none
+
+/-- `HardDipolePotential.displacement`: `cmin = separation_squared - minimum_separation_squared`,
+`cmax = separation_squared - maximum_separation_squared` -/
+def hardDipole (a b cmin cmax : ℝ) : ℝ :=
+  if b ≥ 0 ∧ b * b - a * cmin ≥ 0 then (b - Real.sqrt (b * b - a * cmin)) / a
+  else (b + Real.sqrt (b * b - a * cmax)) / a
+
+/-- the smaller root is a root -/
+theorem gap_root_minus {a b c : ℝ} (ha : 0 < a) (hD : 0 ≤ b * b - a * c) :
+    gap a b c ((b - Real.sqrt (b * b - a * c)) / a) = 0 := by
+  unfold gap
+  have h := Real.mul_self_sqrt hD
+  generalize Real.sqrt (b * b - a * c) = r at h ⊢
+  field_simp
+  nlinarith [h]
+
+/-- the larger root is a root -/
+theorem gap_root_plus {a b c : ℝ} (ha : 0 < a) (hD : 0 ≤ b * b - a * c) :
+    gap a b c ((b + Real.sqrt (b * b - a * c)) / a) = 0 := by
+  unfold gap
+  have h := Real.mul_self_sqrt hD
+  generalize Real.sqrt (b * b - a * c) = r at h ⊢
+  field_simp
+  nlinarith [h]
+
+/-- factorisation of the gap through its two roots -/
+theorem gap_factor {a b c : ℝ} (ha : 0 < a) (hD : 0 ≤ b * b - a * c) (t : ℝ) :
+    gap a b c t = a * (t - (b - Real.sqrt (b * b - a * c)) / a) * (t - (b + Real.sqrt (b * b - a * c)) / a) := by
+  unfold gap
+  have h := Real.mul_self_sqrt hD
+  generalize Real.sqrt (b * b - a * c) = r at h ⊢
+  field_simp
+  nlinarith [h]
+
+/-- without a real root the gap is positive -/
+theorem gap_pos_of_disc_neg {a b c : ℝ} (ha : 0 < a) (hD : b * b - a * c < 0) (t : ℝ) :
+    0 < gap a b c t := by
+  unfold gap
+  have : 0 < a * (a * t * t - 2 * b * t + c) := by nlinarith [mul_self_nonneg (a * t - b)]
+  exact (mul_pos_iff_of_pos_left ha).1 this
+
 end
 end JF.DispR
